@@ -689,6 +689,8 @@ def gen_defs(tier, seed):
     for k, (asy, pay) in enumerate(((False, False), (True, True))):
         d = T.full_def(asy, pay, concrete=bool(k % 2), dynamic=True, initial='HalfOpen')
         full.append({'id': f'full{k}i', 'feature': False, 'def': d, 'family': 'full', 'crate': len(crates), 'mod': 7400 + k})
+    # a machine with 36 states and 40 events, every edge driven
+    full.append({'id': 'big0', 'feature': False, 'def': T.big_def(), 'family': 'full', 'crate': len(crates), 'mod': 7500})
     crates.append(full)
     return crates
 
@@ -878,7 +880,7 @@ def run(tier, seed, work, repo, suspects=None, strict_suspects=None):
             result['shapes'][shape] = result['shapes'].get(shape, 0) + 1
             fams = []
             if x.get('suspect') or x['family'] in ('hier', 'full') or any(not sp['leaf'] for sp in info['storage']):
-                for ops in T.scn_edges(info, x['def']):
+                for ops in T.scn_edges(info, x['def'], cap_edges=(64 if x['id'].startswith('big') else 10)):
                     fams.append(('edges', ops))
                 if x.get('suspect'):
                     result['suspects_driven'] = result.get('suspects_driven', 0) + 1
